@@ -233,6 +233,10 @@ func (s YAMLSyntax) Delete(prefix, path resource.PropertyPath) error {
 			}
 			return nil
 		}
+		if i >= len(s.Content) {
+			// The key is not present, so there is nothing to delete.
+			return nil
+		}
 		valueNode := s.Content[i+1]
 		return YAMLSyntax{Node: valueNode}.Delete(prefix, path[1:])
 	default:
